@@ -99,6 +99,7 @@ type run struct {
 	frozen    map[*value]string   // cells no operation may write to -> obligation label
 	frozenMap map[*smap]string
 	frozenSeen map[string]bool
+	waitFrom  *frame // caller of the sync primitive being recorded
 	syncIDs   map[*value]int
 	syncLog   []syncEv
 	held      map[*value]int
